@@ -8,11 +8,12 @@
            through these lemmas: if the C expression changes, Part 1 breaks.
    Part 2  list lemmas about lupd / nth_error and the ghost measure [pend]
            (V calls whose CAS has not succeeded yet).
-   Part 3  three inductive invariants (InvA count/no-lost-post, InvE timeout, InvC
-           deadlines) and their preservation by [step].
-   Part 4  the lemmas used by Props/Properties_C12.v. *)
+   Part 3  four inductive invariants (InvA count/no-lost-post, InvT clock values read and
+           timeouts, InvL the log follows the program, InvC deadlines) and their
+           preservation by [step].
+   Part 4  the lemmas used by Props/Properties_C12.v and Properties_C15.v. *)
 From NsyncBase Require Import CSem.
-From NsyncGen Require Import Consts Sites.
+From NsyncGen Require Import Consts Sites Time.
 From Coq Require Import List ZArith Bool Lia.
 From NsyncModel Require Import SemModel.
 Import ListNotations.
@@ -90,14 +91,6 @@ Proof.
   revert k k'; induction l as [|x t IH]; intros [|k] [|k'] H; cbn; auto; try congruence.
 Qed.
 
-Definition pend1 (p : ppc * nat) : Z :=
-  match fst p with
-  | VIdle | VWake => Z.of_nat (snd p)
-  | VLoad | VCas _ => Z.of_nat (snd p) + 1
-  end.
-Fixpoint pend (l : list (ppc * nat)) : Z :=
-  match l with [] => 0 | p :: t => pend1 p + pend t end.
-
 Lemma pend1_nonneg p : 0 <= pend1 p.
 Proof. destruct p as [[| |o|] n]; unfold pend1; cbn [fst snd]; lia. Qed.
 
@@ -137,6 +130,12 @@ Qed.
 
 (* --- InvA: the count, the successes, no lost post ------------------ *)
 
+Lemma n_ok_ok a b l : n_ok (mk_ce a b ResOk :: l) = n_ok l + 1.
+Proof. cbn [n_ok ce_res]. lia. Qed.
+Lemma n_ok_to a b rd l : n_ok (mk_ce a b (ResTimedOut rd) :: l) = n_ok l.
+Proof. cbn [n_ok ce_res]. lia. Qed.
+Local Arguments n_ok : simpl never.
+
 Definition cas_ok (o : opc) : Prop :=
   match o with PCas i | TCas _ i => i <> 0 | _ => True end.
 
@@ -145,14 +144,14 @@ Record InvA (T : Z) (w : world) : Prop := mkA {
   ia_nonneg : 0 <= word w;
   ia_nP : 0 <= nP w;
   ia_pend : nV w + pend (posters w) = T;
-  ia_ret : ret0 w = nP w;
+  ia_ret : n_ok (rets w) = nP w;
   ia_cas : cas_ok (owner w);
   ia_sleep : owner_asleep w = true -> word w = 0 \/ pw (posters w)
 }.
 
 Lemma begin_owner_A T w : InvA T w -> InvA T (begin_owner w).
 Proof.
-  intros [H1 H2 H3 H4 H5 H6 H7]. destruct w as [wd ck ow op la ps np nv r0 ea].
+  intros [H1 H2 H3 H4 H5 H6 H7]. destruct w as [wd ck ow op la ps np nv cb rs].
   unfold begin_owner; cbn in *.
   destruct ow; try (constructor; cbn; assumption).
   destruct op as [|[d|] rest]; constructor; cbn; auto; discriminate.
@@ -168,27 +167,28 @@ Proof.
   intros HT H. apply begin_owner_A in H. unfold step_owner; cbv zeta.
   revert H. generalize (begin_owner w). clear w. intros w H.
   pose proof (word_bound _ _ HT H) as Hb.
-  destruct H as [H1 H2 H3 H4 H5 H6 H7]. destruct w as [wd ck ow op la ps np nv r0 ea].
+  destruct H as [H1 H2 H3 H4 H5 H6 H7]. destruct w as [wd ck ow op la ps np nv cb rs].
   cbn in *. destruct ow; cbn in *.
   - (* OIdle *) constructor; cbn; auto.
   - (* PLoad *) rewrite p_guard_spec. brk; zb; constructor; cbn; auto; discriminate.
   - (* PFutex *) brk; zb; constructor; cbn; auto; discriminate.
   - (* PSleep *) brk; constructor; cbn; auto; discriminate.
   - (* PCas *) brk; zb; cbn [fst].
-    + subst i. rewrite p_new_id by lia. constructor; cbn; auto; try lia; discriminate.
+    + subst i. rewrite p_new_id by lia. constructor; cbn; rewrite ?n_ok_ok; auto; try lia; discriminate.
     + constructor; cbn; auto; discriminate.
   - (* TLoad *) rewrite pd_guard_spec. brk; zb; constructor; cbn; auto; discriminate.
   - (* TFutex *) destruct (ts_of d); brk; zb; constructor; cbn; auto; discriminate.
   - (* TSleep *) destruct (ts_of d); brk; constructor; cbn; auto; discriminate.
-  - (* TClock *) brk; constructor; cbn; auto; discriminate.
   - (* TCas *) brk; zb; cbn [fst].
-    + subst i. rewrite pd_new_id by lia. constructor; cbn; auto; try lia; discriminate.
+    + subst i. rewrite pd_new_id by lia. constructor; cbn; rewrite ?n_ok_ok; auto; try lia; discriminate.
     + constructor; cbn; auto; discriminate.
+  - (* TClock *) constructor; cbn; auto; discriminate.
+  - (* TDecide *) brk; constructor; cbn; rewrite ?n_ok_to; auto; discriminate.
   - (* OCrash *) constructor; cbn; auto.
 Qed.
 
 Lemma asleep_wake_owner w : owner_asleep (wake_owner w) = false.
-Proof. destruct w as [wd ck ow op la ps np nv r0 ea]. destruct ow; reflexivity. Qed.
+Proof. destruct w as [wd ck ow op la ps np nv cb rs]. destruct ow; reflexivity. Qed.
 
 Lemma step_poster_A T w k : T < 2 ^ 31 -> InvA T w -> InvA T (fst (step_poster w k)).
 Proof.
@@ -196,18 +196,18 @@ Proof.
   destruct H as [H1 H2 H3 H4 H5 H6 H7]. unfold step_poster.
   destruct (nth_error (posters w) k) as [[[| |old|] n]|] eqn:E.
   - (* VIdle *) destruct n as [|n]; cbn [fst]; [constructor; auto|].
-    destruct w as [wd ck ow op la ps np nv r0 ea]; cbn in *.
+    destruct w as [wd ck ow op la ps np nv cb rs]; cbn in *.
     constructor; cbn; auto.
     + rewrite (pend_lupd _ _ _ _ E). unfold pend1; cbn [fst snd]. lia.
     + intros Hs. destruct (H7 Hs) as [?|Hp]; [now left | right].
       eapply pw_lupd_keep; eauto. discriminate.
   - (* VLoad *) cbn [fst].
-    destruct w as [wd ck ow op la ps np nv r0 ea]; cbn in *.
+    destruct w as [wd ck ow op la ps np nv cb rs]; cbn in *.
     constructor; cbn; auto.
     + rewrite (pend_lupd _ _ _ _ E). unfold pend1; cbn [fst snd]. lia.
     + intros Hs. destruct (H7 Hs) as [?|Hp]; [now left | right].
       eapply pw_lupd_keep; eauto. discriminate.
-  - (* VCas *) destruct w as [wd ck ow op la ps np nv r0 ea]; cbn in *.
+  - (* VCas *) destruct w as [wd ck ow op la ps np nv cb rs]; cbn in *.
     pose proof (pend_nonneg (lupd ps k (VWake, n))) as Hn.
     brk; zb; cbn [fst].
     + subst old. rewrite v_new_id by lia.
@@ -221,7 +221,7 @@ Proof.
         eapply pw_lupd_keep; eauto. discriminate.
   - (* VWake *) cbn [fst].
     assert (Ha := asleep_wake_owner w).
-    destruct w as [wd ck ow op la ps np nv r0 ea]; cbn in *.
+    destruct w as [wd ck ow op la ps np nv cb rs]; cbn in *.
     destruct ow; cbn in *; constructor; cbn; auto; try discriminate;
       rewrite (pend_lupd _ _ _ _ E); unfold pend1; cbn [fst snd]; lia.
   - (* no such poster *) constructor; auto.
@@ -251,44 +251,171 @@ Lemma reach_A prog posts clock0 sched :
   total_posts posts < 2 ^ 31 -> InvA (total_posts posts) (run (init prog posts clock0) sched).
 Proof. intros HT. apply run_A; auto. apply init_A. Qed.
 
-(* --- InvE: ETIMEDOUT only at or after the deadline ------------------ *)
+(* --- InvT: the clock values read, the timeouts ---------------------- *)
 
-Lemma begin_owner_early w : early (begin_owner w) = early w.
+Lemma tm_of_ns_ns c : tm_ns (tm_of_ns c) = c.
 Proof.
-  destruct w as [wd ck ow op la ps np nv r0 ea]. unfold begin_owner; cbn.
-  destruct ow; try reflexivity. destruct op as [|[d|] rest]; reflexivity.
+  unfold tm_ns, tm_of_ns; cbn [t_sec t_nsec].
+  pose proof (Z.div_mod c 1000000000 ltac:(lia)). lia.
 Qed.
 
-Lemma step_owner_E w c : early w = 0 -> early (fst (step_owner w c)) = 0.
+Lemma tm_of_ns_norm c : normalized (tm_of_ns c).
 Proof.
-  intros H. rewrite <- begin_owner_early in H. unfold step_owner; cbv zeta.
-  revert H. generalize (begin_owner w). clear w. intros w H.
-  destruct w as [wd ck ow op la ps np nv r0 ea]. cbn in *.
-  destruct ow; cbn; try destruct (ts_of d); brk; cbn; auto.
-  (* TClock, returning ETIMEDOUT: the test tm_ns d <= clock held *)
-  all: brk; zb; lia.
+  unfold normalized, tm_of_ns; cbn [t_nsec]. apply Z.mod_pos_bound. lia.
 Qed.
 
-Lemma step_poster_E w k : early w = 0 -> early (fst (step_poster w k)) = 0.
+(* the translated nsync_time_cmp on normalized values is the comparison of the nanosecond counts *)
+Lemma timed_out_spec d rd : normalized d -> normalized rd ->
+  timed_out d rd = (tm_ns d <=? tm_ns rd).
 Proof.
-  intros H. unfold step_poster.
-  destruct (nth_error (posters w) k) as [[[| |old|] n]|]; try destruct n; brk; cbn; auto.
-  all: destruct w as [wd ck ow op la ps np nv r0 ea]; destruct ow; cbn in *; auto.
+  unfold normalized, timed_out, tm_ns, to_ts, nsync_time_cmp. destruct d as [sa na], rd as [sb nb].
+  cbn [t_sec t_nsec timespec_tv_sec timespec_tv_nsec]. intros Ha Hb.
+  assert (W1 : wrap_s 32 (1 - 0) = 1) by reflexivity.
+  assert (W2 : wrap_s 32 (0 - 1) = -1) by reflexivity.
+  assert (W3 : wrap_s 32 (0 - 0) = 0) by reflexivity.
+  destruct (Z.leb_spec (sa * 1000000000 + na) (sb * 1000000000 + nb)) as [L|L];
+  (destruct (Z.gtb_spec sa sb) as [G1|G1]; destruct (Z.ltb_spec sa sb) as [G2|G2]; try lia;
+   cbn [b2z]; rewrite ?W1, ?W2, ?W3; cbn [Z.eqb]; try reflexivity;
+   destruct (Z.gtb_spec na nb) as [G3|G3]; destruct (Z.ltb_spec na nb) as [G4|G4]; try lia;
+   cbn [b2z]; rewrite ?W1, ?W2, ?W3; try reflexivity; try lia).
 Qed.
 
-Lemma step_E w a c : early w = 0 -> early (fst (step w a c)) = 0.
+(* a logged call: it began no later than now; a timeout was decided on a clock value rd that the call
+   read (between its beginning and now) and that the translated comparison placed at or after the deadline *)
+Definition entry_ok (ck : Z) (e : centry) : Prop :=
+  ce_begin e <= ck /\
+  match ce_res e with
+  | ResOk => True
+  | ResTimedOut rd => exists d, ce_arg e = Some d /\ timed_out d rd = true /\ normalized rd /\
+                                ce_begin e <= tm_ns rd <= ck
+  end.
+
+Lemma entry_ok_mono ck ck' e : ck <= ck' -> entry_ok ck e -> entry_ok ck' e.
+Proof.
+  intros Hc [H1 H2]. split; [lia|]. destruct (ce_res e); auto.
+  destruct H2 as (d & ? & ? & ? & ?). exists d. split; [|split; [|split]]; auto. lia.
+Qed.
+
+(* the result of the last completed call, as the log has it *)
+Definition last_of (l : list centry) : ores :=
+  match l with [] => RNone | e :: _ => match ce_res e with ResOk => ROk | ResTimedOut _ => RTimedOut end end.
+
+Record InvT (w : world) : Prop := mkT {
+  it_last : SemModel.last w = last_of (rets w);
+  it_beg : cbeg w <= clock w;
+  it_dec : forall d rd, owner w = TDecide d rd -> normalized rd /\ cbeg w <= tm_ns rd <= clock w;
+  it_log : forall e, In e (rets w) -> entry_ok (clock w) e
+}.
+
+Lemma begin_owner_T w : InvT w -> InvT (begin_owner w).
+Proof.
+  intros [H0 H1 H2 H3]. destruct w as [wd ck ow op la ps np nv cb rs].
+  unfold begin_owner; cbn in *.
+  destruct ow; try (constructor; cbn; assumption).
+  destruct op as [|[d|] rest]; constructor; cbn; auto; try lia; discriminate.
+Qed.
+
+Lemma step_owner_T w c : InvT w -> InvT (fst (step_owner w c)).
+Proof.
+  intros H. apply begin_owner_T in H. unfold step_owner; cbv zeta.
+  revert H. generalize (begin_owner w). clear w. intros w [H0 H1 H2 H3].
+  destruct w as [wd ck ow op la ps np nv cb rs]. cbn in *.
+  destruct ow; cbn; try match goal with |- context [ts_of ?x] => destruct (ts_of x) end; brk; cbn [fst];
+    try (constructor; cbn; auto; discriminate).
+  - (* PCas ok *) constructor; cbn; auto; try discriminate.
+    intros e [<-|He]; auto. split; cbn; auto.
+  - (* TCas ok *) constructor; cbn; auto; try discriminate.
+    intros e [<-|He]; auto. split; cbn; auto.
+  - (* TClock: the read *) constructor; cbn; auto.
+    intros d' rd' E. injection E as <- <-. split; [apply tm_of_ns_norm|]. rewrite tm_of_ns_ns. lia.
+  - (* TDecide, expired *) destruct (H2 d rd eq_refl) as (Hn & Hr).
+    constructor; cbn; auto; try discriminate.
+    intros e [<-|He]; auto. split; cbn; auto. exists d. auto.
+Qed.
+
+Lemma step_poster_T w k : InvT w -> InvT (fst (step_poster w k)).
+Proof.
+  intros [H0 H1 H2 H3]. unfold step_poster.
+  destruct (nth_error (posters w) k) as [[[| |old|] n]|]; try destruct n; brk; cbn [fst];
+    try (constructor; cbn; auto; fail).
+  all: destruct w as [wd ck ow op la ps np nv cb rs]; destruct ow; cbn in *; constructor; cbn; auto; discriminate.
+Qed.
+
+Lemma step_T w a c : InvT w -> InvT (fst (step w a c)).
 Proof.
   intros H. destruct a as [|k|dt]; cbn [step].
-  - now apply step_owner_E.
-  - now apply step_poster_E.
-  - brk; cbn; auto.
+  - now apply step_owner_T.
+  - now apply step_poster_T.
+  - destruct H as [H0 H1 H2 H3]. brk; zb; cbn [fst]; constructor; cbn; auto; try lia.
+    + intros d rd E. destruct (H2 d rd E). split; auto; lia.
+    + intros e He. eapply entry_ok_mono; [|eauto]. lia.
 Qed.
 
-Lemma run_E w s : early w = 0 -> early (run w s) = 0.
+Lemma run_T w s : InvT w -> InvT (run w s).
 Proof.
   unfold run. revert w. induction s as [|[a c] s IH]; intros w H; cbn [fold_left fst snd]; auto.
-  apply IH. now apply step_E.
+  apply IH. now apply step_T.
 Qed.
+
+Lemma init_T prog posts clock0 : InvT (init prog posts clock0).
+Proof. constructor; cbn; try lia; try discriminate; try tauto. Qed.
+
+(* --- InvL: the log lists the calls of the program, in order ---------- *)
+
+Definition cur_ok (o : opc) (cur : list (option tm)) : Prop :=
+  match o with
+  | OIdle => cur = []
+  | PLoad | PFutex | PSleep | PCas _ => cur = [None]
+  | TLoad d | TFutex d | TSleep d | TClock d | TDecide d _ | TCas d _ => cur = [Some d]
+  | OCrash => exists d, cur = [Some d]
+  end.
+
+Definition InvL (prog : list (option tm)) (w : world) : Prop :=
+  exists cur, cur_ok (owner w) cur /\ rev (map ce_arg (rets w)) ++ cur ++ oprog w = prog.
+
+Lemma begin_owner_L prog w : InvL prog w -> InvL prog (begin_owner w).
+Proof.
+  intros (cur & H1 & H2). destruct w as [wd ck ow op la ps np nv cb rs].
+  unfold begin_owner; cbn in *.
+  destruct ow; try (exists cur; split; assumption).
+  cbn in H1. subst cur. destruct op as [|[d|] rest]; [exists []|exists [Some d]|exists [None]]; cbn; auto.
+Qed.
+
+Lemma step_owner_L prog w c : InvL prog w -> InvL prog (fst (step_owner w c)).
+Proof.
+  intros H. apply begin_owner_L in H. unfold step_owner; cbv zeta.
+  revert H. generalize (begin_owner w). clear w. intros w (cur & H1 & H2).
+  destruct w as [wd ck ow op la ps np nv cb rs]. cbn in *.
+  destruct ow; cbn; try match goal with |- context [ts_of ?x] => destruct (ts_of x) end; brk; cbn [fst];
+    try (exists cur; split; cbn; auto; fail).
+  all: cbn in H1; subst cur; try (exists []; split; cbn; auto; rewrite <- H2, <- app_assoc; reflexivity).
+  (* crash *) exists [Some d]. split; cbn; eauto.
+Qed.
+
+Lemma step_poster_L prog w k : InvL prog w -> InvL prog (fst (step_poster w k)).
+Proof.
+  intros (cur & H1 & H2). unfold step_poster.
+  destruct (nth_error (posters w) k) as [[[| |old|] n]|]; try destruct n; brk; cbn [fst];
+    try (exists cur; split; cbn; auto; fail).
+  all: destruct w as [wd ck ow op la ps np nv cb rs]; destruct ow; cbn in *; exists cur; split; cbn; auto.
+Qed.
+
+Lemma step_L prog w a c : InvL prog w -> InvL prog (fst (step w a c)).
+Proof.
+  intros H. destruct a as [|k|dt]; cbn [step].
+  - now apply step_owner_L.
+  - now apply step_poster_L.
+  - destruct H as (cur & H1 & H2). brk; cbn [fst]; exists cur; split; auto.
+Qed.
+
+Lemma run_L prog w s : InvL prog w -> InvL prog (run w s).
+Proof.
+  unfold run. revert w. induction s as [|[a c] s IH]; intros w H; cbn [fold_left fst snd]; auto.
+  apply IH. now apply step_L.
+Qed.
+
+Lemma init_L prog posts clock0 : InvL prog (init prog posts clock0).
+Proof. exists []. split; reflexivity. Qed.
 
 (* --- InvC: every deadline the owner handles is valid for the kernel -- *)
 
@@ -307,7 +434,7 @@ Qed.
 
 Definition own_ok (o : opc) : Prop :=
   match o with
-  | TLoad d | TFutex d | TSleep d | TClock d | TCas d _ => tm_ok d
+  | TLoad d | TFutex d | TSleep d | TClock d | TDecide d _ | TCas d _ => tm_ok d
   | OCrash => False
   | _ => True
   end.
@@ -319,7 +446,7 @@ Record InvC (w : world) : Prop := mkC {
 
 Lemma begin_owner_C w : InvC w -> InvC (begin_owner w).
 Proof.
-  intros [H1 H2]. destruct w as [wd ck ow op la ps np nv r0 ea].
+  intros [H1 H2]. destruct w as [wd ck ow op la ps np nv cb rs].
   unfold begin_owner; cbn in *.
   destruct ow; try (constructor; cbn; assumption).
   destruct op as [|[d|] rest]; constructor; cbn; auto; intros; apply H1; cbn; auto.
@@ -329,7 +456,7 @@ Lemma step_owner_C w c : InvC w -> InvC (fst (step_owner w c)).
 Proof.
   intros H. apply begin_owner_C in H. unfold step_owner; cbv zeta.
   revert H. generalize (begin_owner w). clear w. intros w [H1 H2].
-  destruct w as [wd ck ow op la ps np nv r0 ea]. cbn in *.
+  destruct w as [wd ck ow op la ps np nv cb rs]. cbn in *.
   destruct ow; cbn in *; try (brk; constructor; cbn; auto; fail).
   - (* TFutex *) destruct (ts_of d) as [ts|] eqn:E.
     + rewrite (ts_of_valid _ _ H2 E). cbn [negb].
@@ -342,7 +469,7 @@ Proof.
   intros [H1 H2]. unfold step_poster.
   destruct (nth_error (posters w) k) as [[[| |old|] n]|]; try destruct n; brk; cbn [fst];
     try (constructor; cbn; auto; fail).
-  all: destruct w as [wd ck ow op la ps np nv r0 ea]; destruct ow; cbn in *; constructor; cbn; auto.
+  all: destruct w as [wd ck ow op la ps np nv cb rs]; destruct ow; cbn in *; constructor; cbn; auto.
 Qed.
 
 Lemma step_C w a c : InvC w -> InvC (fst (step w a c)).
@@ -363,7 +490,7 @@ Lemma init_C prog posts clock0 : prog_ok prog -> InvC (init prog posts clock0).
 Proof. intros H. constructor; cbn; auto. Qed.
 
 (* ================================================================== *)
-(* Part 4: the lemmas of Props/Properties_C12.v                        *)
+(* Part 4: the lemmas of Props/Properties_C12.v and Properties_C15.v   *)
 (* ================================================================== *)
 
 Lemma count_reachable prog posts clock0 sched :
@@ -373,15 +500,85 @@ Lemma count_reachable prog posts clock0 sched :
   /\ 0 <= word (run (init prog posts clock0) sched).
 Proof. intros HT. destruct (reach_A prog posts clock0 sched HT); auto. Qed.
 
+(* conservation over the WORD: every V call of the posters' programs is either still to make its
+   successful CAS (read off the posters' pcs), or is in the word, or was taken by a call that returned 0
+   (read off the log of returns) *)
+Lemma conservation_reachable prog posts clock0 sched :
+  total_posts posts < 2 ^ 31 ->
+  let w := run (init prog posts clock0) sched in
+  ret0 w + word w + posts_pending w = total_posts posts /\ 0 <= word w /\ 0 <= posts_pending w /\ 0 <= ret0 w.
+Proof.
+  intros HT w. destruct (reach_A prog posts clock0 sched HT) as [H1 H2 H3 H4 H5 H6 H7]. fold w in H1, H2, H3, H4, H5.
+  unfold ret0, posts_pending. pose proof (pend_nonneg (posters w)). repeat split; lia.
+Qed.
+
 Lemma no_free_lunch_reachable prog posts clock0 sched :
   total_posts posts < 2 ^ 31 ->
-  ret0 (run (init prog posts clock0) sched) = nP (run (init prog posts clock0) sched)
-  /\ nP (run (init prog posts clock0) sched) <= nV (run (init prog posts clock0) sched).
-Proof. intros HT. destruct (reach_A prog posts clock0 sched HT). split; [auto | lia]. Qed.
+  let w := run (init prog posts clock0) sched in
+  nV w = ret0 w + word w /\ ret0 w <= nV w /\ nV w <= total_posts posts.
+Proof.
+  intros HT w. destruct (reach_A prog posts clock0 sched HT) as [H1 H2 H3 H4 H5 H6 H7]. fold w in H1, H2, H3, H4, H5.
+  unfold ret0. pose proof (pend_nonneg (posters w)). repeat split; lia.
+Qed.
 
+Lemma reach_T prog posts clock0 sched : InvT (run (init prog posts clock0) sched).
+Proof. apply run_T, init_T. Qed.
+Lemma reach_L prog posts clock0 sched : InvL prog (run (init prog posts clock0) sched).
+Proof. apply run_L, init_L. Qed.
+
+Lemma timed_out_le d rd : timed_out d rd = true -> nsync_time_cmp (to_ts d) (to_ts rd) <= 0.
+Proof. unfold timed_out. intros H. now apply Z.leb_le. Qed.
+
+(* every call that returned ETIMEDOUT: its argument d is a deadline of the program, the value rd it had read
+   from the clock during the call satisfies the C comparison against d, and lies between the clock at the
+   beginning of the call and the clock now; for a normalized d this is d <= rd as instants *)
 Lemma timeout_sound_reachable prog posts clock0 sched :
-  early (run (init prog posts clock0) sched) = 0.
-Proof. apply run_E. reflexivity. Qed.
+  let w := run (init prog posts clock0) sched in
+  forall e rd, In e (rets w) -> ce_res e = ResTimedOut rd ->
+  exists d, ce_arg e = Some d /\ In (Some d) prog /\
+    nsync_time_cmp (to_ts d) (to_ts rd) <= 0 /\ normalized rd /\
+    ce_begin e <= tm_ns rd <= clock w /\
+    (normalized d -> tm_ns d <= tm_ns rd).
+Proof.
+  intros w e rd He Hr.
+  destruct (reach_T prog posts clock0 sched) as [_ _ _ H3]. fold w in H3.
+  destruct (H3 e He) as [_ H]. rewrite Hr in H. destruct H as (d & Ha & Ht & Hn & Hb).
+  exists d. split; [exact Ha|]. split.
+  - destruct (reach_L prog posts clock0 sched) as (cur & _ & <-). fold w.
+    apply in_or_app. left. apply in_rev. rewrite rev_involutive. rewrite <- Ha. now apply in_map.
+  - split; [now apply timed_out_le|]. split; [exact Hn|]. split; [exact Hb|].
+    intros Hd. rewrite (timed_out_spec _ _ Hd Hn) in Ht. now apply Z.leb_le.
+Qed.
+
+(* the same for the call that has just returned: the result the caller sees is the head of the log *)
+Lemma last_timeout_reachable prog posts clock0 sched :
+  let w := run (init prog posts clock0) sched in
+  SemModel.last w = RTimedOut ->
+  exists e l d rd, rets w = e :: l /\ ce_arg e = Some d /\ ce_res e = ResTimedOut rd /\ In (Some d) prog /\
+    nsync_time_cmp (to_ts d) (to_ts rd) <= 0 /\ normalized rd /\
+    ce_begin e <= tm_ns rd <= clock w /\
+    (normalized d -> tm_ns d <= tm_ns rd).
+Proof.
+  intros w Hl.
+  destruct (reach_T prog posts clock0 sched) as [H0 _ _ _]. fold w in H0. rewrite Hl in H0.
+  destruct (rets w) as [|e l] eqn:E; [discriminate|]. cbn in H0.
+  destruct (ce_res e) as [|rd] eqn:Er; [discriminate|].
+  destruct (timeout_sound_reachable prog posts clock0 sched e rd) as (d & H); fold w.
+  { rewrite E. now left. } { exact Er. }
+  exists e, l, d, rd. tauto.
+Qed.
+
+(* the log is the program: completed calls, then the current one, then the remaining ones *)
+Lemma log_faithful_reachable prog posts clock0 sched :
+  let w := run (init prog posts clock0) sched in
+  exists cur, (length cur <= 1)%nat /\ (owner w = OIdle -> cur = []) /\
+    rev (map ce_arg (rets w)) ++ cur ++ oprog w = prog.
+Proof.
+  intros w. destruct (reach_L prog posts clock0 sched) as (cur & H1 & H2). fold w in H1, H2.
+  exists cur. split; [|split; [|exact H2]].
+  - destruct (owner w); cbn in H1; try destruct H1 as (d' & H1); subst cur; cbn; lia.
+  - intros E. rewrite E in H1. exact H1.
+Qed.
 
 Lemma no_lost_post_reachable prog posts clock0 sched :
   total_posts posts < 2 ^ 31 ->
@@ -399,10 +596,10 @@ Qed.
 (* --- the owner running alone ---------------------------------------- *)
 
 Section Solo.
-  Variables (wd ck : Z) (op : list (option tm)) (la : ores) (ps : list (ppc * nat)) (np nv r0 ea : Z).
+  Variables (wd ck : Z) (op : list (option tm)) (la : ores) (ps : list (ppc * nat)) (np nv cb : Z) (rs : list centry).
   Variable c : choice.
-  Let W (v : Z) (o : opc) := mk_w v ck o op la ps np nv r0 ea.
-  Let Done := mk_w (wd - 1) ck OIdle op ROk ps (np + 1) nv (r0 + 1) ea.
+  Let W (v : Z) (o : opc) := mk_w v ck o op la ps np nv cb rs.
+  Let Done (a : option tm) := mk_w (wd - 1) ck OIdle op ROk ps (np + 1) nv cb (mk_ce a cb ResOk :: rs).
 
   Lemma so_PLoad : wd <> 0 -> fst (step_owner (W wd PLoad) c) = W wd (PCas wd).
   Proof.
@@ -416,7 +613,7 @@ Section Solo.
     destruct (Z.eqb_spec wd 0); [contradiction | reflexivity].
   Qed.
 
-  Lemma so_PCas_ok : 1 <= wd < 2 ^ 31 -> fst (step_owner (W wd (PCas wd)) c) = Done.
+  Lemma so_PCas_ok : 1 <= wd < 2 ^ 31 -> fst (step_owner (W wd (PCas wd)) c) = Done None.
   Proof.
     intros H. unfold step_owner, begin_owner, W, Done; cbn.
     rewrite Z.eqb_refl, p_new_id by assumption. reflexivity.
@@ -443,7 +640,7 @@ Section Solo.
     - destruct (Z.eqb_spec wd 0); [contradiction | reflexivity].
   Qed.
 
-  Lemma so_TCas_ok d : 1 <= wd < 2 ^ 31 -> fst (step_owner (W wd (TCas d wd)) c) = Done.
+  Lemma so_TCas_ok d : 1 <= wd < 2 ^ 31 -> fst (step_owner (W wd (TCas d wd)) c) = Done (Some d).
   Proof.
     intros H. unfold step_owner, begin_owner, W, Done; cbn.
     rewrite Z.eqb_refl, pd_new_id by assumption. reflexivity.
@@ -454,60 +651,120 @@ Section Solo.
     intros H. unfold step_owner, begin_owner, W; cbn.
     destruct (Z.eqb_spec wd i); [contradiction | reflexivity].
   Qed.
+
+  Lemma so_TClock d : fst (step_owner (W wd (TClock d)) c) = W wd (TDecide d (tm_of_ns ck)).
+  Proof. reflexivity. Qed.
+
+  Lemma so_TDecide_exp d rd : timed_out d rd = true ->
+    fst (step_owner (W wd (TDecide d rd)) c) = ret_timeout (W wd (TDecide d rd)) d rd.
+  Proof. intros H. unfold step_owner, begin_owner, W; cbn. rewrite H. reflexivity. Qed.
+
+  Lemma so_TDecide_no d rd : timed_out d rd = false ->
+    fst (step_owner (W wd (TDecide d rd)) c) = W wd (TLoad d).
+  Proof. intros H. unfold step_owner, begin_owner, W; cbn. rewrite H. reflexivity. Qed.
 End Solo.
 
 Ltac solo_run := unfold run; cbn [repeat fold_left fst snd step].
 
 (* [prog_ok prog] is used: a deadline in the owner's pc must have a normalized nsec field, otherwise
-   the kernel rejects the timespec (EINVAL) and the ASSERT fires instead of the wait being retried. *)
+   the kernel rejects the timespec (EINVAL) and the ASSERT fires instead of the wait being retried.
+   A call that has already been told ETIMEDOUT by the kernel (pc TClock / TDecide) may still report the
+   timeout -- if the clock value it reads / has read is at or after its deadline -- and then leaves the
+   post in the word for the next call; in every other case the call returns 0 and takes one post. *)
 Lemma solo_reachable : forall prog posts clock0 sched,
   total_posts posts < 2 ^ 31 ->
   prog_ok prog ->
-  0 < word (run (init prog posts clock0) sched) ->
-  owner (run (init prog posts clock0) sched) <> OIdle ->
-  owner (run (init prog posts clock0) sched) <> OCrash ->
-  owner_asleep (run (init prog posts clock0) sched) = false ->
-  (forall d, owner (run (init prog posts clock0) sched) <> TClock d) ->
-  exists n, (n <= 3)%nat /\
-    owner (run (run (init prog posts clock0) sched) (repeat (Owner, CNormal) n)) = OIdle /\
-    SemModel.last (run (run (init prog posts clock0) sched) (repeat (Owner, CNormal) n)) = ROk /\
-    ret0 (run (run (init prog posts clock0) sched) (repeat (Owner, CNormal) n))
-      = ret0 (run (init prog posts clock0) sched) + 1.
+  let w := run (init prog posts clock0) sched in
+  0 < word w -> owner w <> OIdle -> owner w <> OCrash -> owner_asleep w = false ->
+  exists n, (n <= 4)%nat /\
+    let w' := run w (repeat (Owner, CNormal) n) in
+    owner w' = OIdle /\
+    ((SemModel.last w' = ROk /\ ret0 w' = ret0 w + 1 /\ word w' = word w - 1) \/
+     (SemModel.last w' = RTimedOut /\ word w' = word w /\
+      exists d, owner w = TClock d \/ exists rd, owner w = TDecide d rd)).
 Proof.
-  intros prog posts clock0 sched HT Hp.
+  intros prog posts clock0 sched HT Hp w.
   pose proof (reach_A prog posts clock0 sched HT) as HA.
   pose proof (run_C _ sched (init_C prog posts clock0 Hp)) as HC.
   pose proof (word_bound _ _ HT HA) as Hb.
-  revert HA HC Hb. generalize (run (init prog posts clock0) sched). intros w HA [_ HC] Hb.
+  fold w in HA, HC, Hb. revert HA HC Hb. generalize w. clear w. intros w HA [_ HC] Hb.
   destruct HA as [_ _ _ _ _ H6 _].
-  destruct w as [wd ck ow op la ps np nv r0 ea]. cbn in H6, HC, Hb |- *.
-  intros Hw Hi Hcr Hs Hck.
+  destruct w as [wd ck ow op la ps np nv cb rs]. cbn in H6, HC, Hb |- *.
+  intros Hw Hi Hcr Hs.
   assert (Hne : wd <> 0) by lia. assert (Hr : 1 <= wd < 2 ^ 31) by lia.
+  unfold ret0; cbn [rets].
   destruct ow; try congruence; try discriminate.
   - (* PLoad *) exists 2%nat. split; [lia|]. solo_run.
-    rewrite so_PLoad, so_PCas_ok by assumption. cbn. auto.
+    rewrite so_PLoad, so_PCas_ok by assumption. cbn [owner SemModel.last rets word]. rewrite n_ok_ok. auto.
   - (* PFutex *) exists 3%nat. split; [lia|]. solo_run.
-    rewrite so_PFutex, so_PLoad, so_PCas_ok by assumption. cbn. auto.
+    rewrite so_PFutex, so_PLoad, so_PCas_ok by assumption. cbn [owner SemModel.last rets word]. rewrite n_ok_ok. auto.
   - (* PCas *) destruct (Z.eq_dec wd i) as [<-|Hn].
-    + exists 1%nat. split; [lia|]. solo_run. rewrite so_PCas_ok by assumption. cbn. auto.
+    + exists 1%nat. split; [lia|]. solo_run. rewrite so_PCas_ok by assumption.
+      cbn [owner SemModel.last rets word]. rewrite n_ok_ok. auto.
     + exists 3%nat. split; [lia|]. solo_run.
-      rewrite so_PCas_fail, so_PLoad, so_PCas_ok by assumption. cbn. auto.
+      rewrite so_PCas_fail, so_PLoad, so_PCas_ok by assumption. cbn [owner SemModel.last rets word]. rewrite n_ok_ok. auto.
   - (* TLoad *) exists 2%nat. split; [lia|]. solo_run.
-    rewrite so_TLoad, so_TCas_ok by assumption. cbn. auto.
+    rewrite so_TLoad, so_TCas_ok by assumption. cbn [owner SemModel.last rets word]. rewrite n_ok_ok. auto.
   - (* TFutex *) exists 3%nat. split; [lia|]. solo_run.
-    rewrite so_TFutex, so_TLoad, so_TCas_ok by assumption. cbn. auto.
+    rewrite so_TFutex, so_TLoad, so_TCas_ok by assumption. cbn [owner SemModel.last rets word]. rewrite n_ok_ok. auto.
   - (* TCas *) destruct (Z.eq_dec wd i) as [<-|Hn].
-    + exists 1%nat. split; [lia|]. solo_run. rewrite so_TCas_ok by assumption. cbn. auto.
+    + exists 1%nat. split; [lia|]. solo_run. rewrite so_TCas_ok by assumption.
+      cbn [owner SemModel.last rets word]. rewrite n_ok_ok. auto.
     + exists 3%nat. split; [lia|]. solo_run.
-      rewrite so_TCas_fail, so_TLoad, so_TCas_ok by assumption. cbn. auto.
+      rewrite so_TCas_fail, so_TLoad, so_TCas_ok by assumption. cbn [owner SemModel.last rets word]. rewrite n_ok_ok. auto.
+  - (* TClock *) destruct (timed_out d (tm_of_ns ck)) eqn:E.
+    + exists 2%nat. split; [lia|]. solo_run. rewrite so_TClock, so_TDecide_exp by assumption.
+      cbn. split; [reflexivity|]. right. split; [reflexivity|]. split; [reflexivity|].
+      exists d. left. reflexivity.
+    + exists 4%nat. split; [lia|]. solo_run.
+      rewrite so_TClock, so_TDecide_no, so_TLoad, so_TCas_ok by assumption.
+      cbn [owner SemModel.last rets word]. rewrite n_ok_ok. auto.
+  - (* TDecide *) destruct (timed_out d rd) eqn:E.
+    + exists 1%nat. split; [lia|]. solo_run. rewrite so_TDecide_exp by assumption.
+      cbn. split; [reflexivity|]. right. split; [reflexivity|]. split; [reflexivity|].
+      exists d. right. exists rd. reflexivity.
+    + exists 3%nat. split; [lia|]. solo_run.
+      rewrite so_TDecide_no, so_TLoad, so_TCas_ok by assumption.
+      cbn [owner SemModel.last rets word]. rewrite n_ok_ok. auto.
+Qed.
+
+(* --- a post makes a FUTURE wait return: with a positive count and an idle owner, the next call, whatever
+   its kind, its deadline (expired or not, normalized or not) and the kernel's mood, returns 0 after exactly
+   one load and one successful CAS -- it never enters the kernel ---------- *)
+
+Lemma future_reachable : forall prog posts clock0 sched a rest c1 c2,
+  total_posts posts < 2 ^ 31 ->
+  let w := run (init prog posts clock0) sched in
+  owner w = OIdle -> oprog w = a :: rest -> 0 < word w ->
+  let w1 := fst (step w Owner c1) in
+  let w2 := fst (step w1 Owner c2) in
+  (exists s, snd (step w Owner c1) = EvLoad s (word w)) /\
+  (exists s, snd (step w1 Owner c2) = EvCas s (word w) (word w - 1) true) /\
+  owner w2 = OIdle /\ SemModel.last w2 = ROk /\ word w2 = word w - 1 /\
+  rets w2 = mk_ce a (clock w) ResOk :: rets w /\ oprog w2 = rest.
+Proof.
+  intros prog posts clock0 sched a rest c1 c2 HT w.
+  pose proof (reach_A prog posts clock0 sched HT) as HA.
+  pose proof (word_bound _ _ HT HA) as Hb.
+  fold w in HA, Hb. revert HA Hb. generalize w. clear w. intros w HA Hb.
+  destruct w as [wd ck ow op la ps np nv cb rs]. cbn in Hb |- *.
+  intros -> -> Hw.
+  assert (Hne : wd <> 0) by lia. assert (Hr : 1 <= wd < 2 ^ 31) by lia.
+  destruct a as [d|]; unfold step_owner at 1 2 5, begin_owner; cbn.
+  - rewrite pd_guard_spec. destruct (Z.eqb_spec wd 0); [contradiction|]. cbn.
+    unfold step_owner, begin_owner; cbn. rewrite Z.eqb_refl, pd_new_id by assumption. cbn.
+    repeat split; eauto.
+  - rewrite p_guard_spec. destruct (Z.eqb_spec wd 0); [contradiction|]. cbn.
+    unfold step_owner, begin_owner; cbn. rewrite Z.eqb_refl, p_new_id by assumption. cbn.
+    repeat split; eauto.
 Qed.
 
 (* --- an expired deadline is reported promptly ----------------------- *)
 
 Section Expired.
-  Variables (ck : Z) (op : list (option tm)) (la : ores) (ps : list (ppc * nat)) (np nv r0 ea : Z).
+  Variables (ck : Z) (op : list (option tm)) (la : ores) (ps : list (ppc * nat)) (np nv cb : Z) (rs : list centry).
   Variable d : tm.
-  Let W (o : opc) := mk_w 0 ck o op la ps np nv r0 ea.
+  Let W (o : opc) := mk_w 0 ck o op la ps np nv cb rs.
 
   Lemma so_TLoad0 c : fst (step_owner (W (TLoad d)) c) = W (TFutex d).
   Proof. unfold step_owner, begin_owner, W; cbn. rewrite pd_guard_spec. reflexivity. Qed.
@@ -526,11 +783,9 @@ Section Expired.
     - unfold ts_of in E. rewrite Hn in E. discriminate.
   Qed.
 
-  Lemma so_TClock_expired c :
-    tm_ns d <= ck -> fst (step_owner (W (TClock d)) c) = ret_timeout (W (TClock d)) d.
+  Lemma timed_out_expired : tm_ok d -> tm_ns d <= ck -> timed_out d (tm_of_ns ck) = true.
   Proof.
-    intros Hc. unfold step_owner, begin_owner, W; cbn.
-    destruct (Z.leb_spec (tm_ns d) ck); [reflexivity | lia].
+    intros Hd Hc. rewrite (timed_out_spec _ _ Hd (tm_of_ns_norm ck)), tm_of_ns_ns. now apply Z.leb_le.
   Qed.
 End Expired.
 
@@ -543,25 +798,25 @@ Lemma expired_prompt_reachable : forall prog posts clock0 sched d,
   is_no_deadline d = false ->
   tm_ns d <= clock (run (init prog posts clock0) sched) ->
   0 <= clock (run (init prog posts clock0) sched) ->
-  exists n, (n <= 3)%nat /\
+  exists n, (n <= 4)%nat /\
     owner (run (run (init prog posts clock0) sched) (repeat (Owner, CNormal) n)) = OIdle /\
     SemModel.last (run (run (init prog posts clock0) sched) (repeat (Owner, CNormal) n)) = RTimedOut.
 Proof.
   intros prog posts clock0 sched d _ Hp.
   pose proof (run_C _ sched (init_C prog posts clock0 Hp)) as HC.
   revert HC. generalize (run (init prog posts clock0) sched). intros w [_ HC].
-  destruct w as [wd ck ow op la ps np nv r0 ea]. cbn in HC |- *.
+  destruct w as [wd ck ow op la ps np nv cb rs]. cbn in HC |- *.
   intros Ho Hw Hn Hc H0. subst wd.
   destruct Ho as [-> | ->]; cbn in HC.
+  - exists 4%nat. split; [lia|]. solo_run.
+    rewrite so_TLoad0, so_TFutex_expired, so_TClock, so_TDecide_exp by (auto using timed_out_expired). cbn. auto.
   - exists 3%nat. split; [lia|]. solo_run.
-    rewrite so_TLoad0, so_TFutex_expired, so_TClock_expired by assumption. cbn. auto.
-  - exists 2%nat. split; [lia|]. solo_run.
-    rewrite so_TFutex_expired, so_TClock_expired by assumption. cbn. auto.
+    rewrite so_TFutex_expired, so_TClock, so_TDecide_exp by (auto using timed_out_expired). cbn. auto.
 Qed.
 
 Lemma pre_epoch_times_out :
-  owner (run (init [Some (mk_tm (-5) 999999999)] [] 1000) (repeat (Owner, CNormal) 3)) = OIdle /\
-  SemModel.last (run (init [Some (mk_tm (-5) 999999999)] [] 1000) (repeat (Owner, CNormal) 3)) = RTimedOut.
+  owner (run (init [Some (mk_tm (-5) 999999999)] [] 1000) (repeat (Owner, CNormal) 4)) = OIdle /\
+  SemModel.last (run (init [Some (mk_tm (-5) 999999999)] [] 1000) (repeat (Owner, CNormal) 4)) = RTimedOut.
 Proof. vm_compute. split; reflexivity. Qed.
 
 (* --- a concrete run: two posters, a plain P and a timed P ----------- *)
@@ -577,3 +832,37 @@ Proof.
           (Owner, CNormal); (Owner, CNormal); (Owner, CNormal); (Owner, CNormal)].
   vm_compute. repeat split; reflexivity.
 Qed.
+
+(* --- a concrete run with an injected EINTR, an early ETIMEDOUT that is retried, a sleep, a real timeout
+   (the clock is read at 5500 and the decision taken later, at 5600), then a sleep ended by a post --------- *)
+
+Definition sched_eintr_timeout_post : list (actor * choice) :=
+  [ (Owner, CNormal);         (* call 1 (deadline 5000): load 0 *)
+    (Owner, CEintr);          (* futex wait: EINTR *)
+    (Owner, CNormal);         (* load 0 *)
+    (Owner, CEarlyTimeout);   (* futex wait: ETIMEDOUT although the clock is at 1000 *)
+    (Owner, CNormal);         (* reads the clock: 1000 *)
+    (Owner, CNormal);         (* 5000 <= 1000 is false: retry *)
+    (Owner, CNormal);         (* load 0 *)
+    (Owner, CNormal);         (* futex wait: sleeps *)
+    (Tick 4500, CNormal);     (* the clock reaches 5500 *)
+    (Owner, CNormal);         (* the kernel ends the sleep: ETIMEDOUT *)
+    (Owner, CNormal);         (* reads the clock: 5500 *)
+    (Tick 100, CNormal);
+    (Owner, CNormal);         (* 5000 <= 5500: returns ETIMEDOUT *)
+    (Owner, CNormal);         (* call 2 (deadline 9000): load 0 *)
+    (Owner, CNormal);         (* futex wait: sleeps *)
+    (Poster 0%nat, CNormal); (Poster 0%nat, CNormal); (Poster 0%nat, CNormal);   (* load, CAS 0 -> 1, wake *)
+    (Owner, CNormal);         (* load 1 *)
+    (Owner, CNormal) ].       (* CAS 1 -> 0: returns 0 *)
+
+Lemma example_eintr_timeout_post :
+  let w := run (init [Some (mk_tm 0 5000); Some (mk_tm 0 9000)] [1%nat] 1000) sched_eintr_timeout_post in
+  rets w = [ mk_ce (Some (mk_tm 0 9000)) 5600 ResOk; mk_ce (Some (mk_tm 0 5000)) 1000 (ResTimedOut (mk_tm 0 5500)) ] /\
+  SemModel.last w = ROk /\ word w = 0 /\ nV w = 1 /\ clock w = 5600 /\ owner w = OIdle /\
+  map (fun n => snd (step (run (init [Some (mk_tm 0 5000); Some (mk_tm 0 9000)] [1%nat] 1000) (firstn n sched_eintr_timeout_post)) Owner
+                          (snd (nth n sched_eintr_timeout_post (Owner, CNormal)))))
+      [1; 3; 4; 5; 7; 9; 10; 12]%nat
+  = [ EvFutexWait EINTR; EvFutexWait ETIMEDOUT; EvClock (mk_tm 0 1000); EvDecide false;
+      EvFutexWait 0; EvFutexWait ETIMEDOUT; EvClock (mk_tm 0 5500); EvDecide true ].
+Proof. vm_compute. repeat split; reflexivity. Qed.
